@@ -195,3 +195,17 @@ def same_store(ctx, rule, instance, fi, ex, sp, attr):
         ctx.fail(rule, instance, fi.where(), "%s stores .%s %d time(s) on distinct objects; the specification stores it once: %s" % (fi.qualname, attr, len(got), _clip(show(next(iter(want.values()))))), construct=fi.qualname, stmt="store ." + attr)
         return False
     return same(ctx, rule, instance, fi, next(iter(got.values())), next(iter(want.values())), "." + attr)
+
+
+def imported(ctx, rule_fn, *args):
+    """Run a rule that belongs to a sibling property as a shared premise of this one.  If the sibling's
+    analysis cannot proceed on this tree, that is the sibling check's ANALYSIS-ERROR to report, not this
+    one's: it is recorded as a note here."""
+    try:
+        rule_fn(ctx, *args)
+    except AnalysisError as e:
+        ctx.note("imported premise %s.%s not analysable on this tree: %s" % (rule_fn.__module__.split(".")[-1], rule_fn.__name__, str(e)[:200]))
+        # the vacuity guard of an imported rule is the sibling's business
+        for r in list(ctx.rule_min):
+            if sum(1 for o in ctx.obligations if o["rule"] == r) < ctx.rule_min[r] and getattr(ctx, "_own_rules", None) is not None and r not in ctx._own_rules:
+                ctx.rule_min[r] = 0
